@@ -204,7 +204,28 @@ def faults_of(fr, rng, tier):
             out.append(b[:i] + bytes([v]) + b[i:])     # insertion (incl. the ASCII white space characters)
     for i in range(1, n):
         out.append(b[:i])                              # truncation
+    out += checksum_faults(fr)
     return [x for x in out if x != b]
+
+
+def checksum_faults(fr):
+    """structured damage of the integrity field itself: the two check bytes exchanged, zeroed, all ones, one of them zeroed / all ones,
+    complemented, incremented (RTU: last two bytes; binary: the two bytes before '}'; ASCII: the two LRC characters before CR LF)"""
+    b, kind = fr["bytes"], fr["kind"]
+    if kind == "rtu" and len(b) >= 4:
+        lo, hi = len(b) - 2, len(b)
+    elif kind == "bin" and len(b) >= 6 and b[-1:] == b"}":
+        lo, hi = len(b) - 3, len(b) - 1
+    elif kind == "ascii" and len(b) >= 7:
+        lo, hi = len(b) - 4, len(b) - 2
+    else:
+        return []
+    c = b[lo:hi]
+    alts = [c[::-1], b"\x00\x00", b"\xff\xff", bytes([0, c[1]]), bytes([c[0], 0]), bytes([0xFF, c[1]]), bytes([c[0], 0xFF]),
+            bytes([c[0] ^ 0xFF, c[1] ^ 0xFF]), bytes([(c[0] + 1) & 0xFF, c[1]]), bytes([c[0], (c[1] + 1) & 0xFF])]
+    if kind == "ascii":
+        alts = [c[::-1], b"00", b"FF", b"0" + c[1:2], c[0:1] + b"0", b"F" + c[1:2], c[0:1] + b"F"]
+    return [b[:lo] + a + b[hi:] for a in alts if a != c]
 
 
 def gen_c07(tier, rng):
